@@ -1123,6 +1123,7 @@ pub fn extra_c03(spec: &PropSpec, args: &CheckArgs) -> ExtraResult {
         p.p_srv_more = 700;
         p.p_align = 0;
         p.p_long = 0;
+        p.p_storm = 0;
     }
     calm.opts = world::RunOpts::default();
     // phase 1 (sequential, in run-index order, hence deterministic): pick the messages to sweep
@@ -1293,6 +1294,7 @@ pub fn extra_c04_client(spec: &PropSpec, args: &CheckArgs) -> ExtraResult {
         p.p_srv_more = 300;
         p.p_align = 0;
         p.p_long = 0;
+        p.p_storm = 0;
     }
     calm.opts = world::RunOpts::default();
     struct Cand {
